@@ -861,7 +861,10 @@ func main() {
 			"the callee is [state-writing block: SSTORE, TSTORE, LOGn, value transfers, nested calls and creates, SLOAD/BALANCE warming] + a forced ending: REVERT, INVALID, stack underflow, " +
 			"stack overflow, out of gas (memory bomb or loop under a small gas cap), invalid jump, return-data out of bounds, a write attempted under static (SSTORE/TSTORE/LOG/CREATE/SELFDESTRUCT/value CALL), " +
 			"or a normal RETURN/STOP/SELFDESTRUCT; programs from the grammar of family c27 (every modelled opcode, nested calls into the other contracts); plus an adversarial stream (random bytes, mutated programs) " +
-			"and exact-gas +-1 variants. Each case: model comparison under Cancun / Prague / Osaka (whole end-of-transaction world incl. transient storage, warm sets, refund, logs, self-destruct marks); " +
+			"and exact-gas +-1 variants; " +
+			"structured streams: (a) call trees of 3-5 levels with nested static contexts (a STATICCALL and further STATICCALLs issued from an already static context, mixed with CALL / DELEGATECALL / CALLCODE levels inheriting the flag; leaf = contract / reverting contract / empty account / precompile) where every level attempts every state-writing opcode AFTER its inner call returned (systematic: write op x level x depth; and random); " +
+			"(b) refund-counter sequences over committed storage (slots with non-zero original values): outer SSTOREs and DELEGATECALLed inner programs (up to 3 levels, one storage context), values from {0, original, two others}, every program ending in STOP / REVERT / INVALID / out of gas (systematic: state x target x ending; and random). " +
+			"Oracle additions: a state-writing opcode that starts executing in a static context must be followed at once by its OnFault with ErrWriteProtection (or be rejected by its gas function); the refund counter is part of every entry / exit dump. Each case: model comparison under Cancun / Prague / Osaka (whole end-of-transaction world incl. transient storage, warm sets, refund, logs, self-destruct marks); " +
 			"oracle under all 16 rule sets Frontier..Bogota (for rule sets other than Cancun/Prague/Osaka the oracle alone decides): two passes of the same execution, the first collects every address / storage key / transient key mentioned, " +
 			"the second dumps balances, nonces, code hashes, storage, transient storage, logs, refund, warm addresses and slots, self-destruct marks through the StateDB getters at every OnEnter and OnExit and requires " +
 			"equality for every frame reported reverted (create frames: modulo the creator nonce bump and the warming of the new address, which evm.create performs before its snapshot) and, without the warm sets, for every frame " +
